@@ -119,6 +119,16 @@ pub trait Pat: Sized + Copy {
     const PAT_BYTES: usize;
     fn pat_from_le(le: &[u8]) -> Self;
     fn pat_to_le(&self) -> Vec<u8>;
+    /// the low 128 bits of the pattern, zero-extended (allocation-free path for the exhaustive small-width sweeps)
+    fn low_u128(&self) -> u128 {
+        let le = self.pat_to_le();
+        let mut v = 0u128;
+        for (i, b) in le.iter().enumerate().take(16) { v |= (*b as u128) << (8 * i); }
+        v
+    }
+    fn from_low_u128(v: u128) -> Self {
+        Self::pat_from_le(&v.to_le_bytes())
+    }
 }
 
 macro_rules! pat_prim {
@@ -157,6 +167,24 @@ macro_rules! pat_bnum {
                 }
                 v
             }
+            fn low_u128(&self) -> u128 {
+                const DBITS: usize = 8 * core::mem::size_of::<$D>();
+                let mut v = 0u128;
+                for (i, d) in self.digits().iter().enumerate() {
+                    if i * DBITS >= 128 { break; }
+                    v |= (*d as u128) << (i * DBITS);
+                }
+                v
+            }
+            fn from_low_u128(v: u128) -> Self {
+                const DBITS: usize = 8 * core::mem::size_of::<$D>();
+                let mut digits = [0 as $D; N];
+                for i in 0..N {
+                    if i * DBITS >= 128 { break; }
+                    digits[i] = (v >> (i * DBITS)) as $D;
+                }
+                $BU::from_digits(digits)
+            }
         }
         impl<const N: usize> Pat for $BI<N> {
             const PAT_BYTES: usize = N * core::mem::size_of::<$D>();
@@ -166,6 +194,8 @@ macro_rules! pat_bnum {
             fn pat_to_le(&self) -> Vec<u8> {
                 self.to_bits().pat_to_le()
             }
+            fn low_u128(&self) -> u128 { self.to_bits().low_u128() }
+            fn from_low_u128(v: u128) -> Self { $BI::from_bits(<$BU<N> as Pat>::from_low_u128(v)) }
         }
     };
 }
@@ -545,3 +575,29 @@ amt_types!(BUint, BInt);
 amt_types!(BUintD32, BIntD32);
 amt_types!(BUintD16, BIntD16);
 amt_types!(BUintD8, BIntD8);
+
+/// Structural equality between a bnum outcome and the outcome of the same call on a primitive (exhaustive sweeps).
+pub trait Same<R> {
+    fn same(&self, r: &R) -> bool;
+}
+impl<A: Pat, B: Pat> Same<B> for A {
+    fn same(&self, r: &B) -> bool {
+        let bits = 8 * core::cmp::min(A::PAT_BYTES, B::PAT_BYTES);
+        let m = if bits >= 128 { u128::MAX } else { (1u128 << bits) - 1 };
+        A::PAT_BYTES == B::PAT_BYTES && (self.low_u128() & m) == (r.low_u128() & m)
+    }
+}
+impl Same<bool> for bool {
+    fn same(&self, r: &bool) -> bool { self == r }
+}
+impl Same<core::cmp::Ordering> for core::cmp::Ordering {
+    fn same(&self, r: &core::cmp::Ordering) -> bool { self == r }
+}
+impl<A: Same<B>, B> Same<Option<B>> for Option<A> {
+    fn same(&self, r: &Option<B>) -> bool {
+        match (self, r) { (None, None) => true, (Some(a), Some(b)) => a.same(b), _ => false }
+    }
+}
+impl<A: Same<C>, B: Same<D>, C, D> Same<(C, D)> for (A, B) {
+    fn same(&self, r: &(C, D)) -> bool { self.0.same(&r.0) && self.1.same(&r.1) }
+}
